@@ -168,8 +168,12 @@ class Gen:
                 c.update(n=r.choice([0, 1, 2]))
             elif kind == 'q_next':
                 c.update(qubits=r.sample(range(NQ), r.choice([1, 2])), start=r.choice([0, 1, 2, 5]))
+                if r.random() < 0.5:
+                    c.update(max_distance=r.choice([0, 1, 2, 3, 9]))
             elif kind == 'q_prev':
-                c.update(qubits=r.sample(range(NQ), r.choice([1, 2])), end=r.choice([None, 0, 1, 2, 3, 9]))
+                c.update(qubits=r.sample(range(NQ), r.choice([1, 2])), end=r.choice([None, 0, 1, 2, 3, 9, 13]))
+                if r.random() < 0.5:
+                    c.update(max_distance=r.choice([0, 1, 2, 3, 5, 9, 12]))
             elif kind == 'rebuild':
                 c.update(how=r.choice(REBUILDS))
             elif kind == 'q_earliest':
@@ -287,9 +291,9 @@ def run_impl(w: World, calls):
             elif kind == 'q_mkeys':
                 ret = sorted(int(k[1:]) for k in circ.all_measurement_key_names())
             elif kind == 'q_next':
-                ret = circ.next_moment_operating_on([w.qs[q] for q in call['qubits']], call['start'])
+                ret = circ.next_moment_operating_on([w.qs[q] for q in call['qubits']], call['start'], **({'max_distance': call['max_distance']} if 'max_distance' in call else {}))
             elif kind == 'q_prev':
-                ret = circ.prev_moment_operating_on([w.qs[q] for q in call['qubits']], call['end'])
+                ret = circ.prev_moment_operating_on([w.qs[q] for q in call['qubits']], call['end'], **({'max_distance': call['max_distance']} if 'max_distance' in call else {}))
             elif kind == 'q_earliest':
                 ret = circ.earliest_available_moment(w.op(call['op']), end_moment_index=call['end'])
             else:
